@@ -42,7 +42,7 @@ def run(tier, v):
     h = vlib.build_harness(["e2e", "c02"])
     out = os.path.join(vlib.scratch(), "c02")
     params = {"shards": 96, "per_message": 3, "thorough": False} if quick else \
-             {"shards": 96, "per_message": 6, "thorough": True, "random_double": 150}
+             {"shards": 96, "per_message": 10, "thorough": True, "random_double": 400}
     s = vlib.run_driver(h, "c02_faults", out, params, timeout=3400)
     files, details = E.gather(out)
     bad, _, st = E.judge(files, "TransferObs", "TransferObs_c02.cfg", v, details, "obs", keyfn=keyfn, timeout=3000)
